@@ -342,18 +342,28 @@ fn build_catalog(z: &SrvZone) -> Catalog {
 }
 
 fn request_bytes(q: &SrvQuery, payload: i32) -> Vec<u8> {
+    request_bytes_ext(q, payload, false, 0)
+}
+
+/// `nsid`: the request carries an (empty) EDNS NSID option; `version`: its EDNS version.
+fn request_bytes_ext(q: &SrvQuery, payload: i32, nsid: bool, version: u8) -> Vec<u8> {
+    use hickory_proto::rr::rdata::opt::{EdnsOption, NSIDPayload};
     let mut m = Message::new(7, MessageType::Query, OpCode::Query);
     m.add_query(Query::new(n(q.name), q.qtype));
     if payload >= 0 {
         let mut e = Edns::new();
         e.set_max_payload(payload.max(512) as u16);
         e.set_dnssec_ok(q.dnssec_ok);
+        e.set_version(version);
+        if nsid {
+            e.options_mut().insert(EdnsOption::NSID(NSIDPayload::new(Vec::<u8>::new()).unwrap()));
+        }
         m.set_edns(e);
     }
     let mut b = m.to_vec().unwrap();
     if (0..512).contains(&payload) {
-        // OPT is the last record: root name(1) type(2) class(2) ttl(4) rdlen(2): class at len-8
-        let p = b.len() - 8;
+        // OPT is the last record: root name(1) type(2) class(2) ttl(4) rdlen(2) [NSID: code(2) len(2)]
+        let p = b.len() - 8 - if nsid { 4 } else { 0 };
         b[p..p + 2].copy_from_slice(&(payload as u16).to_be_bytes());
     }
     b
@@ -529,6 +539,116 @@ fn run_srv_huge(z: &SrvZone, cat: &Catalog, tcp: bool, rt: &tokio::runtime::Runt
     }
 }
 
+/// (e) configured NSID payload x EDNS version: the response OPT grows by a server-side knob.
+/// Reference = the complete TCP response to the same question without NSID / version 0.
+#[allow(clippy::too_many_arguments)]
+fn run_srv_nsid(
+    z: &SrvZone,
+    cat: &Catalog,
+    q: &SrvQuery,
+    payload: i32,
+    nsid_len: usize,
+    version: u8,
+    tcp: bool,
+    fm: &Message,
+    rt: &tokio::runtime::Runtime,
+    l: &mut Local,
+) {
+    l.eval();
+    let wit = |extra: Value| {
+        let mut j = srv_json(z, q, payload);
+        j["nsid_len"] = json!(nsid_len);
+        j["version"] = json!(version);
+        j["tcp"] = json!(tcp);
+        j["detail"] = extra;
+        j
+    };
+    let req = request_bytes_ext(q, payload, true, version);
+    let proto = if tcp { Protocol::Tcp } else { Protocol::Udp };
+    let tag = if tcp { "tcp" } else { "udp" };
+    let got = match one_response(rt, cat, &req, proto) {
+        Ok(b) => b,
+        Err(k) => {
+            l.violation(&format!("server-{k}:nsid:{tag}"), "no single response", || wit(json!(null)));
+            return;
+        }
+    };
+    let limit = if tcp { 65535 } else { payload.max(512) as usize };
+    if got.len() > limit {
+        l.violation(
+            &format!("server-over-limit:{tag}"),
+            &format!("{} bytes sent, limit {} (NSID payload of {} octets configured)", got.len(), limit, nsid_len),
+            || wit(json!({"len": got.len()})),
+        );
+        return;
+    }
+    let (_w, um) = match well_formed(&got) {
+        Ok(x) => x,
+        Err((k, what)) => {
+            l.violation(&format!("{k}:nsid:{tag}"), &what, || wit(json!({"len": got.len(), "head": hex::enc(&got[..got.len().min(48)])})));
+            return;
+        }
+    };
+    if um.metadata.id != 7 {
+        l.violation("server-question-or-id-changed", "response id differs from the request id", || wit(json!(null)));
+        return;
+    }
+    use hickory_proto::op::ResponseCode;
+    if version > 0 {
+        // BADVERS: an error response (header, question, OPT); only the limit and well-formedness are C03's
+        l.outcome("server-nsid:badvers");
+        return;
+    }
+    if um.metadata.response_code == ResponseCode::ServFail && fm.metadata.response_code != ResponseCode::ServFail {
+        // "encoding either fails ...": the header-only SERVFAIL fallback of MessageResponse::encode
+        l.outcome("server-nsid:encode-failed-servfail");
+        l.nontrivial(fnv64(&got) ^ nsid_len as u64);
+        return;
+    }
+    if um.queries != fm.queries {
+        l.violation("server-question-or-id-changed", "question differs from the reference response", || wit(json!(null)));
+        return;
+    }
+    for (name, u, f) in [
+        ("answer", &um.answers, &fm.answers),
+        ("authority", &um.authorities, &fm.authorities),
+        ("additional", &um.additionals, &fm.additionals),
+    ] {
+        if !is_prefix(u, f) {
+            l.violation(
+                &format!("server-section-not-prefix:{name}"),
+                &format!("{name} section is not a prefix of the complete one (NSID configured)"),
+                || wit(json!({"got": u.len(), "full": f.len()})),
+            );
+            return;
+        }
+    }
+    let edns_dropped = payload >= 0 && um.edns.is_none();
+    if payload < 0 && um.edns.is_some() {
+        l.violation("server-edns-changed", "OPT in the response to a request without OPT", || wit(json!(null)));
+        return;
+    }
+    let dropped = um.answers.len() < fm.answers.len()
+        || um.authorities.len() < fm.authorities.len()
+        || um.additionals.len() < fm.additionals.len()
+        || edns_dropped;
+    let want_tc = fm.metadata.truncation || dropped;
+    if um.metadata.truncation != want_tc {
+        l.violation(
+            if dropped { "server-tc-not-set" } else { "server-tc-set-without-drop" },
+            &format!("TC={} expected {} (NSID payload {} octets, OPT {})", um.metadata.truncation, want_tc, nsid_len, if edns_dropped { "dropped" } else { "kept" }),
+            || wit(json!({"len": got.len()})),
+        );
+        return;
+    }
+    if dropped {
+        l.outcome(if edns_dropped { "server-nsid:opt-dropped" } else { "server-nsid:truncated" });
+        l.nontrivial(fnv64(&got) ^ (payload as u64).wrapping_mul(0x9e3779b97f4a7c15) ^ ((nsid_len as u64) << 40));
+    } else {
+        l.outcome("server-nsid:complete");
+    }
+}
+
 fn srv_queries(z: &SrvZone) -> Vec<SrvQuery> {
     let mut v = vec![];
     let dos: &[bool] = if z.signed { &[false, true] } else { &[false] };
@@ -582,7 +702,32 @@ fn main() {
                     axfr: case["axfr"].as_bool().unwrap_or(false),
                 };
                 let cat = build_catalog(&z);
-                if case["huge"].as_bool() == Some(true) {
+                if let Some(nsid_len) = case["nsid_len"].as_u64() {
+                    use hickory_proto::rr::rdata::opt::NSIDPayload;
+                    let mut cat = cat;
+                    cat.set_nsid(Some(NSIDPayload::new(vec![0xab; nsid_len as usize]).unwrap()));
+                    let qname: &'static str = Box::leak(case["qname"].as_str().unwrap().to_string().into_boxed_str());
+                    let q = SrvQuery {
+                        name: qname,
+                        qtype: RecordType::from(case["qtype"].as_u64().unwrap() as u16),
+                        dnssec_ok: case["do"].as_bool().unwrap_or(false),
+                    };
+                    let ref_payload = if case["payload"].as_i64().unwrap() < 0 { -1 } else { 65535 };
+                    let full = one_response(&rt, &cat, &request_bytes(&q, ref_payload), Protocol::Tcp).expect("reference response");
+                    let (_, fm) = well_formed(&full).expect("reference response well-formed");
+                    run_srv_nsid(
+                        &z,
+                        &cat,
+                        &q,
+                        case["payload"].as_i64().unwrap() as i32,
+                        nsid_len as usize,
+                        case["version"].as_u64().unwrap_or(0) as u8,
+                        case["tcp"].as_bool().unwrap_or(false),
+                        &fm,
+                        &rt,
+                        l,
+                    );
+                } else if case["huge"].as_bool() == Some(true) {
                     run_srv_huge(&z, &cat, case["tcp"].as_bool().unwrap_or(false), &rt, l);
                 } else {
                     let qname: &'static str = Box::leak(case["qname"].as_str().unwrap().to_string().into_boxed_str());
@@ -617,6 +762,8 @@ fn main() {
         families.push((alphabet(true), deep));
     }
     let mut total_messages = 0u64;
+    let t0 = std::time::Instant::now();
+    let mut fam_wall: Vec<(&str, f64)> = vec![];
     for (alpha, (max_an, max_ns, max_ar)) in &families {
         let k = alpha.len();
         let an = sequences(k, *max_an);
@@ -654,6 +801,7 @@ fn main() {
         });
     }
     ctx.set("messages", json!(total_messages));
+    fam_wall.push(("a:encoder", t0.elapsed().as_secs_f64()));
 
     // (b) server path
     let mut zones = vec![];
@@ -692,6 +840,7 @@ fn main() {
             }
         },
     );
+    fam_wall.push(("b:server-differential", t0.elapsed().as_secs_f64()));
     // responses above 64 KiB
     let huge: Vec<SrvZone> = [250usize, 256, 300].iter().map(|&nrec| SrvZone { nrec, big: true, nns: 0, signed: false, axfr: false }).collect();
     ctx.par_run_init(
@@ -705,6 +854,7 @@ fn main() {
         },
     );
 
+    fam_wall.push(("b:huge", t0.elapsed().as_secs_f64()));
     // (c) zone transfers and error responses: whatever the server sends must respect the
     //     transport limit and be well-formed (the differential oracle does not apply: an AXFR
     //     answer has no "complete" counterpart once the zone exceeds one message)
@@ -773,6 +923,81 @@ fn main() {
             }
         },
     );
+    fam_wall.push(("c:axfr-any-refused", t0.elapsed().as_secs_f64()));
+
+    // (e) server-side EDNS knob: a configured NSID payload of every interesting size (0 .. the
+    //     largest NSIDPayload::new accepts, 65,535, whose OPT RDATA no longer fits 16 bits) x EDNS
+    //     version x payload sweep x UDP/TCP
+    let nsid_lens: Vec<usize> = if thorough {
+        vec![0, 1, 16, 100, 300, 480, 485, 490, 495, 500, 505, 510, 1000, 4000, 40000, 65000, 65400, 65500, 65519, 65520, 65521, 65530, 65531, 65532, 65535]
+    } else {
+        vec![0, 100, 480, 500, 1000, 40000, 65500, 65520, 65531, 65532, 65535]
+    };
+    let mut nzones = vec![];
+    for nrec in if thorough { vec![1, 10, 20, 25, 28, 29, 30] } else { vec![1, 20, 29] } {
+        for signed in [false, true] {
+            nzones.push(SrvZone { nrec, big: false, nns: 0, signed, axfr: false });
+        }
+    }
+    let njobs = nzones.len() * nsid_lens.len();
+    ctx.set("nsid_jobs", json!(njobs));
+    ctx.par_run_init(
+        njobs as u64,
+        1,
+        |_| vsim::rt(),
+        |i, l, rt| {
+            use hickory_proto::rr::rdata::opt::NSIDPayload;
+            let z = &nzones[i as usize / nsid_lens.len()];
+            let nsid_len = nsid_lens[i as usize % nsid_lens.len()];
+            let mut cat = build_catalog(z);
+            cat.set_nsid(Some(NSIDPayload::new(vec![0xab; nsid_len]).expect("NSID payload")));
+            let dos: &[bool] = if z.signed { &[false, true] } else { &[false] };
+            for &d in dos {
+                for (qname, qtype) in [("r.z.", RecordType::A), ("x.r.z.", RecordType::A)] {
+                    let q = SrvQuery { name: qname, qtype, dnssec_ok: d };
+                    let full = match one_response(rt, &cat, &request_bytes(&q, 65535), Protocol::Tcp) {
+                        Ok(b) => b,
+                        Err(_) => continue,
+                    };
+                    let Ok((_, fm)) = well_formed(&full) else { continue };
+                    // a request without OPT gets no DNSSEC records: its own reference
+                    let Ok(plain) = one_response(rt, &cat, &request_bytes(&q, -1), Protocol::Tcp) else { continue };
+                    let Ok((_, fm_plain)) = well_formed(&plain) else { continue };
+                    let mut payloads: Vec<i32> = vec![-1, 0, 1232, 4096, 65535];
+                    let dense_to = if thorough { 1400 } else { 600 };
+                    payloads.extend(512..=dense_to);
+                    for x in [full.len() + nsid_len, full.len() + nsid_len + 4, full.len() + nsid_len + 15] {
+                        for dlt in 0..=2usize {
+                            if x + dlt >= 512 && x + dlt <= 65535 {
+                                payloads.push((x + dlt) as i32);
+                            }
+                            if x >= 512 + dlt && x - dlt <= 65535 {
+                                payloads.push((x - dlt) as i32);
+                            }
+                        }
+                    }
+                    payloads.sort();
+                    payloads.dedup();
+                    for &p in &payloads {
+                        for tcp in [false, true] {
+                            if tcp && p > 600 && p != 65535 {
+                                continue; // the TCP limit does not depend on the payload
+                            }
+                            run_srv_nsid(z, &cat, &q, p, nsid_len, 0, tcp, if p < 0 { &fm_plain } else { &fm }, rt, l);
+                        }
+                    }
+                    for version in [1u8, 255] {
+                        for p in [512, 1232] {
+                            for tcp in [false, true] {
+                                run_srv_nsid(z, &cat, &q, p, nsid_len, version, tcp, &fm, rt, l);
+                            }
+                        }
+                    }
+                }
+            }
+        },
+    );
+    fam_wall.push(("e:nsid-version", t0.elapsed().as_secs_f64()));
 
     // (d) large messages through the plain encoder: k copies of a 300-byte TXT record (up to
     //     ~84 KiB) under the limits around every multiple of the record size near 64 KiB
@@ -801,6 +1026,8 @@ fn main() {
         }
     });
 
+    fam_wall.push(("d:large", t0.elapsed().as_secs_f64()));
+    ctx.set("family_wall_s_cumulative", json!(fam_wall.iter().map(|(k, v)| json!([k, (v * 10.0).round() / 10.0])).collect::<Vec<_>>()));
     if ctx.outcome_count("truncated") == 0 || ctx.outcome_count("server-truncated") == 0 {
         ctx.machinery_failure("vacuous run: no truncation was exercised");
     }
